@@ -12,6 +12,14 @@ value() and evalexpr() are read as well.  TLC (SatTrace) recomputes the allowed 
 judges every observation.  Histories: the TLC-enumerated two- and three-post histories over one or several managers,
 every wide single constraint again behind 2-3 earlier encodings in other managers (all orders, sampled in quick), and a
 seeded random driver with larger constraints and interleaved managers.
+Spellings of a constraint that TLC does not see (it judges the constraint as written): Ineq(..) vs. comparison
+operators, Term objects kept and SHARED between inequalities, every coefficient and the bound multiplied by a huge
+positive factor (2^54..2^62: same satisfying set).  "Cofactor histories" (an inequality, then the residual
+inequality of one branch of its top decision in the same manager) come both from SatLayer!PostCofactor and from the
+random driver.
+Thorough tier only, no property claim: propagation strength (ac_stage) -- TLC states for which kinds unit
+propagation on the specified CNF is complete, must-fail configurations exhibit the counterexamples, and pysat's
+propagate() on the real CNF is judged by SatTrace; the outcome goes to coverage.arc_consistency.
 """
 from __future__ import annotations
 
@@ -24,6 +32,7 @@ from ..forkpool import prepare_imports, run_cases
 from .. import tlc
 
 V7 = ["a", "b", "c", "d", "e", "f", "g"]
+HUGE = [2 ** 60 - 1, 2 ** 54 - 1, 2 ** 62 + 1, 3 * 2 ** 57 - 1, 10 ** 18]   # positive scale factors (see run_process)
 BLANK = {"kind": "", "lits": [], "head": ["", 1], "meth": "", "k": 0, "terms": [], "op": "", "bound": 0, "dec": 0}
 
 
@@ -99,6 +108,7 @@ def run_process(case):
     names = case["vars"]
     mgrs = []
     obs = []
+    shared = {}     # Term objects the "user program" keeps and reuses in several inequalities (events with share=1)
     for e in case["events"]:
         o = {"refused": 0, "proj": [], "sat": 0, "model": [], "negs": [], "evals": [], "store": [], "root": -1,
              "conflict": 0, "implied": []}
@@ -126,10 +136,20 @@ def run_process(case):
                     else:
                         sm.heuleencoding([L(v, s) for (v, s) in c["lits"]], c["k"])
                 elif c["kind"] == "pb":
+                    # spellings of the SAME constraint (TLC judges c as written):
+                    #   scale  every coefficient and the bound times a huge positive factor (same satisfying set;
+                    #          integer coefficients far beyond 2^53, where float arithmetic would round)
+                    #   share  the Term objects are kept by the caller and reused in later inequalities
+                    K = int(e.get("scale", 1))
                     ex = Expr()
                     for (v, s, k) in c["terms"]:
-                        ex = ex + Term(L(v, s), k)
-                    op, b = c["op"], c["bound"]
+                        if e.get("share", 0):
+                            if (v, s, k * K) not in shared:
+                                shared[(v, s, k * K)] = Term(L(v, s), k * K)
+                            ex = ex + shared[(v, s, k * K)]
+                        else:
+                            ex = ex + Term(L(v, s), k * K)
+                    op, b = c["op"], c["bound"] * K
                     if e.get("spell", 0) == 1:
                         ineq = Ineq(ex, Expr() + b, "==" if op == "=" else op)
                     else:
@@ -185,11 +205,11 @@ def with_solves(events, names, rng, only=None):
 def history_cases(singles, names, rng, tier):
     """A sample of the single constraints again as the LAST manager of a process in which 2-3 other managers
     encoded other inequalities before.  quick: 1000 diagram-reaching constraints, one order of the earlier
-    encodings each; thorough: 6000 of them in EVERY order of the 2-3 earlier encodings, plus 1500 others."""
+    encodings each; thorough: 4000 of them in EVERY order of the 2-3 earlier encodings, plus 1500 others."""
     pool = [c for c in singles if reaches_diagram(c) and len(c["terms"]) >= 2]
     if not pool:
         return []
-    probes = rng.sample(pool, min(len(pool), 1000 if tier == "quick" else 6000))
+    probes = rng.sample(pool, min(len(pool), 1000 if tier == "quick" else 4000))
     if tier == "thorough":
         rest = [c for c in singles if c["kind"] in ("pb", "amo") and not reaches_diagram(c)]
         probes += rng.sample(rest, min(len(rest), 1500))
@@ -214,7 +234,9 @@ def history_cases(singles, names, rng, tier):
 def random_cases(rng: random.Random, n: int):
     """Larger than TLC enumerates: 4-7 variables, up to 7 terms, coefficients -9..12 (zero, negative, repeated
     variables), any bound, five operators, both constructions, at-most-one groups to 9 literals with repeats and
-    complements, 1-3 managers with interleaved posts, solves in between."""
+    complements, 1-3 managers with interleaved posts, solves in between, and "cofactor histories" (an inequality
+    followed, in the same manager, by the residual inequality of one branch of its top decision), "shared-term
+    histories" (two inequalities built from the same kept Term objects) and inequalities scaled by a huge factor."""
     cases = []
     for _ in range(n):
         names = V7[:rng.randint(4, 7)]
@@ -253,12 +275,38 @@ def random_cases(rng: random.Random, n: int):
                 b = rng.randint(lo - 1, hi + 1)
                 op = rng.choice([">=", ">=", ">=", "<=", "<=", ">", "<", "="])
                 c = con(kind="pb", terms=terms, op=op, bound=b, dec=rng.randint(0, 1))
-            e = {"ev": "post", "m": m, "c": c, "spell": rng.randint(0, 1)}
+            e = {"ev": "post", "m": m, "c": c, "spell": rng.randint(0, 1), "share": rng.randint(0, 1)}
+            if c["kind"] == "pb" and len(c["terms"]) <= 4 and all(abs(t[2]) <= 4 for t in c["terms"]) and rng.random() < 0.35:
+                e["scale"] = rng.choice(HUGE)
             ev.append(e)
+            if rng.random() < 0.3:
+                # shared-term history: the program keeps its Term objects (negative coefficients, repeated variables)
+                # and builds two different inequalities from them, posted to this or another manager
+                t1 = [[rng.choice(names), rng.randint(0, 1), rng.choice([-3, -2, -1, 1, 2, 3])] for _ in range(rng.randint(2, 5))]
+                lo, hi = sum(min(t[2], 0) for t in t1), sum(max(t[2], 0) for t in t1)
+                t2 = list(t1) + ([[rng.choice(names), rng.randint(0, 1), rng.choice([-2, 1, 2])]] if rng.random() < 0.5 else [])
+                rng.shuffle(t2)
+                for tt in (t1, t2):
+                    ev.append({"ev": "post", "m": rng.randint(1, made), "share": 1, "spell": rng.randint(0, 1),
+                               "c": con(kind="pb", terms=tt, op=rng.choice([">=", ">=", "<="]), bound=rng.randint(lo, hi + 1),
+                                        dec=rng.randint(0, 1))})
+            if rng.random() < 0.3:
+                # cofactor history: an inequality in normal shape (distinct variables, positive coefficients), then the
+                # residual inequality of one branch of its top decision, same manager, same variable names
+                vs = rng.sample(names, rng.randint(3, min(5, len(names))))
+                t1 = [[v, rng.randint(0, 1), rng.randint(1, 6)] for v in vs]
+                tot = sum(t[2] for t in t1)
+                b1 = rng.randint(2, max(2, tot - 1))
+                top = max(range(len(t1)), key=lambda i: (t1[i][2], -i))     # first maximal coefficient = top decision
+                rest = [t for i, t in enumerate(t1) if i != top]
+                branch = rng.randint(0, 1)
+                b2 = b1 - t1[top][2] if (t1[top][1] == 1) == (branch == 1) else b1
+                ev.append({"ev": "post", "m": m, "c": con(kind="pb", terms=t1, op=">=", bound=b1, dec=rng.randint(0, 1)), "spell": 0})
+                ev.append({"ev": "post", "m": m, "c": con(kind="pb", terms=rest, op=">=", bound=b2, dec=rng.randint(0, 1)), "spell": 0})
             if rng.random() < 0.25:
                 ev = with_solves(ev, names, rng, only=m)
         ev = with_solves(ev, names, rng)
-        small_diagrams = all(sum(abs(t[2]) for t in e["c"]["terms"]) <= 14 for e in ev if e["ev"] == "post")
+        small_diagrams = all(sum(abs(t[2]) for t in e["c"]["terms"]) <= 14 and "scale" not in e for e in ev if e["ev"] == "post")
         cases.append({"vars": names, "detail": 1 if small_diagrams else 0, "events": ev, "src": "random"})
     return cases
 
@@ -339,7 +387,7 @@ def features_of(e, case, idx):
     c = e["c"]
     return {"kind": c["kind"], "op": c["op"], "meth": c["meth"], "k": c["k"], "dec": c["dec"],
             "earlier_managers": sum(1 for x in case["events"][:idx] if x["ev"] == "new") - 1 if e["ev"] != "new" else 0,
-            "event": e["ev"]}
+            "event": e["ev"], "scaled": int("scale" in e), "shared_terms": int(e.get("share", 0))}
 
 
 BATCH = 25000
@@ -375,7 +423,7 @@ def _decide_batch(ctx: Ctx, runner: Runner, cases: list[str], cfg: str, first: b
             t["id"] = key
             traces[key] = t
             owners[key] = {"case": cj, "errs": [o.get("err") for o in val]}
-    verdicts = tlc.validate_traces(ctx, "SatTrace", cfg, list(traces.values()), chunk=25000)
+    verdicts = tlc.validate_traces(ctx, "SatTrace", cfg, list(traces.values()), chunk=(25000 if ctx.tier == "quick" else 6000))
     for key, v in verdicts.items():
         t, own = traces[key], owners[key]
         full = 1 << len(t["vars"])
@@ -535,10 +583,17 @@ def _run(ctx: Ctx, runner: Runner) -> int:
                 json.dumps({"vars": names, "detail": 1, "events": with_solves(h["events"], names, rng), "src": name}))
         if name == "wide":
             singles, wide_names = [h["events"][-1]["c"] for h in hs], names
+        if name == "seq":
+            # the same histories with every inequality scaled by a huge factor (coefficients ~2^54..2^60: beyond what
+            # TLC's integers or a float can hold; same satisfying sets, TLC judges the unscaled constraints)
+            dec = [h for h in hs if any(e["ev"] == "post" and e["c"]["kind"] == "pb" and e["c"]["dec"] == 1 for e in h["events"])]
+            for i, h in enumerate(rng.sample(dec, min(len(dec), 1200 if tier == "quick" else 6000))):
+                evs = [dict(e, scale=HUGE[i % 2]) if e["ev"] == "post" and e["c"]["kind"] == "pb" else e for e in h["events"]]
+                small.append(json.dumps({"vars": names, "detail": 0, "events": with_solves(evs, names, rng), "src": "seq_scaled"}))
         del hs
     n_tlc = len(small) + len(big)
     hist = history_cases(singles, wide_names, rng, tier)
-    rnd = random_cases(rng, 1200 if tier == "quick" else 20000)
+    rnd = random_cases(rng, 1200 if tier == "quick" else 12000)
     ntr = decide(ctx, runner, small + hist, "SatTrace3")
     ntr += decide(ctx, runner, big + [json.dumps(c) for c in rnd], "SatTrace")
     if tier == "thorough":
